@@ -101,6 +101,17 @@ def run_sequence(acc, case):
                 if bad:
                     acc.violation("delivered-outside-open:in-%s" % bad[0][0], "message %s handed to the application while the model state was %s" % (bad[0][2], bad[0][0]), wit)
                     return
+                # H10: local consumption (RFC 6733 6.1.4) - in Open, a request addressed to this node (by host, by realm, by both)
+                # is handed to the application, one addressed to another host or realm is not
+                if model == scen.OPEN and ev in scen.FOR_THIS_NODE + scen.FOR_ANOTHER_NODE:
+                    mine = [d for d in obs["delivered"] if d[2] == obs["ids"][0]]
+                    acc.counters["addressing_judged"] += 1
+                    if ev in scen.FOR_THIS_NODE and len(mine) != 1:
+                        acc.violation("request-for-this-node-handed-over-%d-times:on-%s" % (len(mine), ev), "in Open, %s was handed to the application %d times" % (ev, len(mine)), wit)
+                        return
+                    if ev in scen.FOR_ANOTHER_NODE and mine:
+                        acc.violation("request-for-another-node-handed-to-the-application:on-%s" % ev, "in Open, %s was handed to the application" % ev, wit)
+                        return
                 # H1
                 if got == scen.OPEN and exp["next"] != scen.OPEN and model != scen.OPEN:
                     acc.violation("open-without-valid-capabilities-exchange:on-%s-in-%s" % (ev, model), "state %s reported after %s in %s" % (obs["state_after"], ev, model), wit)
@@ -290,7 +301,7 @@ def main(tier, seed):
                            "round-robin scheduling: this property quantifies over histories, not schedules"],
                           t0, extra_cov={"states": len({c.split("|")[0] for c in cells}), "transitions": len(cells),
                                          "cells_exercised": cells, "exhaustive_depth": depth},
-                          exhaustive=True, require_counters=("events_applied", "hard_cells_judged", "h9_checked", "sequences_completed", "open_under_schedule", "real_loopback_ok", "events_landed_on_a_parked_state_machine", "idle_periods_judged"))
+                          exhaustive=True, require_counters=("events_applied", "hard_cells_judged", "h9_checked", "sequences_completed", "open_under_schedule", "real_loopback_ok", "events_landed_on_a_parked_state_machine", "idle_periods_judged", "addressing_judged"))
 
 
 def replay(w):
